@@ -412,7 +412,7 @@ func (e *verifEnv) monitor() {
 func (e *verifEnv) checkDecisionProof(d *Justification) {
 	sym.Assert(d.Vote.Instance == verifInstance && d.Vote.Round == 0 && d.Vote.Phase == DECIDE_PHASE, "C03: decision is for this instance, round 0, DECIDE")
 	supp := VerifSupp()
-	sym.Assert(d.Vote.SupplementalData.Eq(&supp), "C03: decision carries the instance's supplemental data")
+	sym.Assert(verifSuppEq(&d.Vote.SupplementalData, &supp), "C03: decision carries the instance's supplemental data")
 	pw, signers, err := d.GetSigners(e.c.PowerTable)
 	sym.Assert(err == nil, "C03: signers are committee members with non-zero scaled power")
 	if err != nil {
